@@ -134,13 +134,16 @@ def execute(case, scratch):
     finally:
         W.cleanup(top)
 
-TIERS = {"quick": {"runs": 2500, "wall_cap": 420}, "thorough": {"runs": 60000, "wall_cap": 3000}}
-RULE = ("one run = one generated multi-directory world (same header name in 1..4 directories, quote/angle/"
-        "computed includes, guarded/once/unguarded re-inclusion-sensitive headers, -I/-isystem/-include in "
-        "generated order) executed (a) plainly, (b) with include-memo eviction at scheduler-chosen look-ups, "
-        "(c) as an API history of look-ups against one real Platform; non-trivial = at least one look-up had "
-        ">=2 candidate directories, or the same spelling was looked up again in the TU from another directory "
-        "or in the other form, or an eviction fired; distinct = distinct sha256(world, schedule)")
+TIERS = {"quick": {"runs": 4000, "wall_cap": 420}, "thorough": {"runs": 100000, "wall_cap": 3000}}
+RULE = ("one run = one generated multi-directory world (same header name in 1..4 directories incl. sub-project layout and a "
+        "directory outside the code base; quote / angle / computed includes, the computed ones also selected by a -D flag or through "
+        "a re-used macro name; guarded (#ifndef and #if !defined), #pragma once, unguarded, re-entrant and 'defaults' headers, "
+        "re-inclusion-sensitive bodies; feature macros tested after the include; continued directives, block comments, odd directive "
+        "spellings; -I / -isystem / -include (absolute and bare) in generated order, repeated directories; uniform or per-command flags; "
+        "C, C++ and Fortran units) executed (a) plainly, (b) with include-memo eviction at scheduler-chosen look-ups, (c) as an API "
+        "history of look-ups against one real Platform; non-trivial = at least one look-up had >=2 candidate directories, or the same "
+        "spelling was looked up again in the TU from another directory or in the other form, or an eviction fired; "
+        "distinct = distinct sha256(world, schedule)")
 ASSUMPTIONS = [
     "reference model (cbisim/refmodel.py) is the specification; its agreement with gcc -E is re-measured by the thorough tier (model_vs_gcc)",
     "worlds are inside the property's domain by construction (no macro redefinition, no missing header, acyclic includes, forced includes absolute)",
